@@ -40,6 +40,9 @@ def scripts():
     # close when some data has arrived / mid transfer
     out["close:c_after_rx"] = {"c": [W(0, 2500, True), CLOSE(g=("rx", 0, 1))], "s": [W(0, 3000, True, g=("rx", 0, 1))]}
     out["close:s_mid_rx"] = {"c": [W(0, 6000, True)], "s": [CLOSE(g=("rx", 0, 1200), code=7, reason="x" * 40)]}
+    # server closes while its anti-amplification budget is exhausted (big certificate chain)
+    out["close:bigchain_s_now"] = {"c": [W(0, 100)], "s": [CLOSE(g="now")]}
+    out["close:bigchain_s_hs"] = {"c": [W(0, 100)], "s": [CLOSE(g="hs")]}
     out["close:both"] = {"c": [W(0, 100), CLOSE()], "s": [W(1, 100), CLOSE()]}
     out["close:both_now"] = {"c": [CLOSE(g="now")], "s": [CLOSE(g="now")]}
     # fatal protocol error provoked through the public API of the peer is not possible; use
@@ -65,6 +68,8 @@ def goal(w):
 def factory(sc):
     cfg = dict(sc.get("cfg", {}))
     name = sc["script"]
+    if "bigchain" in name:
+        cfg.setdefault("chain", "bigchain")
     if name.startswith("idle"):
         cfg.setdefault("idle", 3.0)
     elif name.startswith("blackout"):
